@@ -194,6 +194,15 @@ def drive_and_validate(prop, tier, seed, bins, workdir, shards, tlc_timeout):
         t0 = time.time()
         r = subprocess.run([binpath, "drive", prop, "--tier", tier, "--seed", str(seed), "--out", d, "--shards", str(shards)],
                            stdout=subprocess.PIPE, stderr=subprocess.PIPE, text=True, timeout=3600)
+        if r.returncode == 3:
+            # the watchdog fired: a call of the code under test did not return
+            hang = [json.loads(l) for l in r.stdout.splitlines() if l.startswith('{"case"') or '"k":"HANG"' in l]
+            case = hang[-1]["case"] if hang else {}
+            ev = {"op": case.get("op") if isinstance(case, dict) else "?", "cf": "fun", "f": "", "x": case.get("x", {}) if isinstance(case, dict) else {},
+                  "y": {"k": str(case.get("y")) if isinstance(case, dict) else "?", "b": []}, "a": case.get("a", {}) if isinstance(case, dict) else {}}
+            res["violations"].append({"profile": prof, "shard": "driver", "line": 0, "event": ev, "complaints": ["call-does-not-return"],
+                                      "expected": {}, "prefix": []})
+            continue
         if r.returncode != 0:
             res["tool_errors"].append("driver %s failed (exit %d): %s" % (prof, r.returncode, r.stderr[-2000:]))
             continue
